@@ -397,10 +397,13 @@ def mon_snap(p, tol, snapped, obs=None):
     return ("grid:tol-mesh:not-least-power", f"optim_state['tol_mesh'] = {snapped!r} for tol_mesh {tol!r}, multiplier {p!r}: the least power >= tol_mesh is {p!r}**{c}")
 
 
-def mon_mesh(p, k, mesh):
+def mon_mesh(p, k, mesh, what="poll mesh size (exponent mesh_size_integer)"):
     if F(mesh) != F(p) ** int(k):
-        return ("grid:mesh:not-a-power", f"mesh size {mesh!r} != {p!r}**{k}")
+        return ("grid:mesh:not-the-power", f"{what} {mesh!r} != {p!r}**{k}")
     return None
+
+
+SEARCH_MESH = "search mesh size (exponent min(0, k*search_grid_multiplier - search_grid_number) when locked, else the stored one)"
 
 
 def mon_si(sloppy, ti, mesh, fe, tf, si):
@@ -540,6 +543,75 @@ class Options(dict):
         self.update(kw)
 
 
+def exec_init(stmts, rej_stmt, lb, ub, xu, k0, sgm, sgn, pmm, tol):
+    """run the located statements of _init_optim_state_ on a stub; returns (stub, optim_state, raised)"""
+    bb, gf = real_mods()
+    stub = Stub(options=Options(init_mesh_size_integer=k0, search_grid_multiplier=sgm, search_grid_number=sgn,
+                                poll_mesh_multiplier=pmm, tol_mesh=tol),
+                lower_bounds=lb.copy(), upper_bounds=ub.copy(), x0=None, var_transf=None)
+    ns = dict(np=np, self=stub, optim_state=dict(scale=1.0), force_to_grid=gf.force_to_grid, grid_units=lambda *a, **k: xu.copy())
+    with np.errstate(all="ignore"):
+        run_stmts(stmts, ns)
+    raised = False
+    try:
+        if rej_stmt is not None:
+            run_stmts([rej_stmt], ns)
+    except ValueError:
+        raised = True
+    return stub, ns["optim_state"], raised
+
+
+def mon_init(lb, ub, xu, k0, sgm, sgn, pmm, tol, stub, os_, raised, obs=None):
+    """all grid clauses on the values the real statements produced; returns [(verdict, coordinate|None)]"""
+    D = lb.shape[1]
+    ks = min(0, k0 * sgm - sgn)
+    m = pmm ** ks
+    real_m = float(os_["search_mesh_size"])
+    out = [(mon_mesh(pmm, k0, os_["mesh_size"]), None), (mon_mesh(pmm, ks, real_m, SEARCH_MESH), None),
+           (mon_snap(pmm, tol, float(os_["tol_mesh"]), obs), None)]
+    if real_m == m:
+        for i in range(D):
+            l, u, x = float(lb[0, i]), float(ub[0, i]), float(xu[0, i])
+            a, b, u0, su = float(os_["lb_search"][0, i]), float(os_["ub_search"][0, i]), float(os_["u"][0, i]), float(stub.u[i])
+            out.append((mon_search_box(l, u, m, a, b), i))
+            if D == 1 or not raised:
+                out.append((mon_start(x, l, u, m, u0, raised if D == 1 else False), i))
+            if su != u0:
+                out.append((("grid:start:self-u-differs", f"self.u {su!r} != optim_state['u'] {u0!r}"), i))
+    return [(v, i) for v, i in out if v is not None]
+
+
+def exec_loop(stmts, stop_stmt, lb, ub, k, ks_in, locked, sgm, sgn, sloppy, ti, fe, tf, pmm, tstate):
+    bb, gf = real_mods()
+    stub = Stub(options=Options(poll_mesh_multiplier=pmm, search_size_locked=locked, search_grid_multiplier=sgm, search_grid_number=sgn,
+                                tol_improvement=ti, forcing_exponent=fe, sloppy_improvement=sloppy, tol_fun=tf),
+                mesh_size_integer=k, optim_state=dict(search_size_integer=ks_in, lb=lb.copy(), ub=ub.copy(), tol_mesh=tstate))
+    stub._update_search_bounds_ = types.MethodType(bb.BADS._update_search_bounds_, stub)
+    ns = dict(np=np, self=stub)
+    with np.errstate(all="ignore"):
+        run_stmts(stmts, ns)
+        stop = bool(eval_expr(stop_stmt.test, ns)) if stop_stmt is not None else None
+    return stub, stop
+
+
+def mon_loop(lb, ub, k, ks_in, locked, sgm, sgn, sloppy, ti, fe, tf, pmm, tstate, stub, stop):
+    os_ = stub.optim_state
+    D = lb.shape[1]
+    ks = min(0, k * sgm - sgn) if locked else ks_in
+    m = pmm ** ks
+    mesh, smesh, si = float(os_["mesh_size"]), float(os_["search_mesh_size"]), float(stub.sufficient_improvement)
+    out = [(mon_mesh(pmm, k, mesh), None), (mon_mesh(pmm, ks, smesh, SEARCH_MESH), None)]
+    if smesh == m:
+        for i in range(D):
+            out.append((mon_search_box(float(lb[0, i]), float(ub[0, i]), m, float(os_["lb_search"][0, i]), float(os_["ub_search"][0, i])), i))
+    out.append((mon_si(sloppy, ti, mesh, fe, tf, si), None))
+    if stop is not None and stop != (F(mesh) < F(tstate)):
+        out.append((("grid:tol-mesh:stop-test", f"mesh {mesh!r} vs tolerance {tstate!r}: the loop test gives {stop}"), None))
+    if (ks_in <= k or locked) and k <= 0 and sgm >= 1 and not (smesh <= mesh):
+        out.append((("grid:mesh:search-mesh-exceeds-poll-mesh", f"search mesh {smesh!r} > poll mesh {mesh!r} (k={k}, ks_in={ks_in}, locked={locked}, sgm={sgm}, sgn={sgn})"), None))
+    return [(v, i) for v, i in out if v is not None]
+
+
 def comp_init_region(ctx, acc, n, loose=None):
     """the located statements of _init_optim_state_ run on a stub (arbitrary boxes, including ones narrower than a step).
     acc None: monitors only, on the loosely located statements"""
@@ -565,40 +637,20 @@ def comp_init_region(ctx, acc, n, loose=None):
         lb = np.array([[b[0] for b in boxes]])
         ub = np.array([[b[1] for b in boxes]])
         xu = np.array([[b[2] for b in boxes]])
-        stub = Stub(options=Options(init_mesh_size_integer=k0, search_grid_multiplier=sgm, search_grid_number=sgn,
-                                    poll_mesh_multiplier=pmm, tol_mesh=tol),
-                    lower_bounds=lb.copy(), upper_bounds=ub.copy(), x0=None, var_transf=None)
-        ns = dict(np=np, self=stub, optim_state=dict(scale=1.0), force_to_grid=gf.force_to_grid, grid_units=lambda *a, **k: xu.copy())
-        raised = False
         try:
-            with np.errstate(all="ignore"):
-                run_stmts(stmts, ns)
-            os_ = ns["optim_state"]
-            try:
-                if rej_stmt is not None:
-                    run_stmts([rej_stmt], ns)
-            except ValueError:
-                raised = True
-            real_m = float(os_["search_mesh_size"])
+            stub, os_, raised = exec_init(stmts, rej_stmt, lb, ub, xu, k0, sgm, sgn, pmm, tol)
             vals = [(float(lb[0, i]), float(ub[0, i]), float(xu[0, i]), float(os_["lb_search"][0, i]), float(os_["ub_search"][0, i]),
                      float(os_["u"][0, i]), float(stub.u[i])) for i in range(D)]
             ts = float(os_["tol_mesh"])
+            verdicts = mon_init(lb, ub, xu, k0, sgm, sgn, pmm, tol, stub, os_, raised, ctx.coverage)
         except Exception as ex:                      # noqa: BLE001
             if acc is not None:
                 acc.differ("_init_optim_state_", f"the located statements do not run on the stub: {ex!r}")
             continue
-        rp = dict(kind="init_region", lb=lb.tolist(), ub=ub.tolist(), x_units=xu.tolist(), options=dict(init_mesh_size_integer=k0, search_grid_multiplier=sgm,
-                                                                                                      search_grid_number=sgn, tol_mesh=tol))
-        nv += report(ctx, mon_mesh(pmm, k0, os_["mesh_size"]), rp)
-        nv += report(ctx, mon_mesh(pmm, ks, real_m), rp)
-        nv += report(ctx, mon_snap(pmm, tol, ts, ctx.coverage), rp)
-        if real_m == m:
-            for i, (l, u, x, a, b, u0, su) in enumerate(vals):
-                nv += report(ctx, mon_search_box(l, u, m, a, b), dict(rp, coordinate=i))
-                if D == 1 or not raised:
-                    nv += report(ctx, mon_start(x, l, u, m, u0, raised if D == 1 else False), dict(rp, coordinate=i))
-                if su != u0:
-                    nv += report(ctx, ("grid:start:self-u-differs", f"self.u {su!r} != optim_state['u'] {u0!r}"), dict(rp, coordinate=i))
+        rp = dict(kind="init_region", lb=lb.tolist(), ub=ub.tolist(), x_units=xu.tolist(), init_mesh_size_integer=k0, search_grid_multiplier=sgm,
+                  search_grid_number=sgn, tol_mesh=tol)
+        for v, i in verdicts:
+            nv += report(ctx, v, dict(rp, coordinate=i))
         if acc is None:
             continue
         Zargs = dict(init_mesh_size_integer=k0, search_grid_multiplier=sgm, search_grid_number=sgn)
@@ -661,35 +713,22 @@ def comp_loop_region(ctx, acc, n, loose=None):
         boxes = [gen_box(rng, m) for _ in range(D)]
         lb = np.array([[b[0] for b in boxes]])
         ub = np.array([[b[1] for b in boxes]])
-        stub = Stub(options=Options(poll_mesh_multiplier=pmm, search_size_locked=locked, search_grid_multiplier=sgm, search_grid_number=sgn,
-                                    tol_improvement=ti, forcing_exponent=fe, sloppy_improvement=sloppy, tol_fun=tf),
-                    mesh_size_integer=k, optim_state=dict(search_size_integer=ks_in, lb=lb.copy(), ub=ub.copy(), tol_mesh=tstate))
-        stub._update_search_bounds_ = types.MethodType(bb.BADS._update_search_bounds_, stub)
-        ns = dict(np=np, self=stub)
+        args = (lb, ub, k, ks_in, locked, sgm, sgn, sloppy, ti, fe, tf, pmm, tstate)
         try:
-            with np.errstate(all="ignore"):
-                run_stmts(stmts, ns)
-                stop = bool(eval_expr(stop_stmt.test, ns)) if stop_stmt is not None else None
+            stub, stop = exec_loop(stmts, stop_stmt, *args)
             os_ = stub.optim_state
             mesh, smesh, si = float(os_["mesh_size"]), float(os_["search_mesh_size"]), float(stub.sufficient_improvement)
             vals = [(float(lb[0, i]), float(ub[0, i]), float(os_["lb_search"][0, i]), float(os_["ub_search"][0, i])) for i in range(D)]
+            verdicts = mon_loop(*args, stub, stop)
         except Exception as ex:                      # noqa: BLE001
             if acc is not None:
                 acc.differ("optimize/loop", f"the located statements do not run on the stub: {ex!r}")
             continue
-        rp = dict(kind="loop_region", lb=lb.tolist(), ub=ub.tolist(), mesh_size_integer=k, search_size_integer=ks_in,
-                  options=dict(search_size_locked=locked, search_grid_multiplier=sgm, search_grid_number=sgn, tol_improvement=ti, forcing_exponent=fe,
-                               sloppy_improvement=sloppy, tol_fun=tf), tol_mesh_state=tstate)
-        nv += report(ctx, mon_mesh(pmm, k, mesh), rp)
-        nv += report(ctx, mon_mesh(pmm, ks, smesh), rp)
-        if smesh == m:
-            for i, (l, u, a, b) in enumerate(vals):
-                nv += report(ctx, mon_search_box(l, u, m, a, b), dict(rp, coordinate=i))
-        nv += report(ctx, mon_si(sloppy, ti, mesh, fe, tf, si), rp)
-        if stop is not None and stop != (F(mesh) < F(tstate)):
-            nv += report(ctx, ("grid:tol-mesh:stop-test", f"mesh {mesh!r} vs tolerance {tstate!r}: the loop test gives {stop}"), rp)
-        if (ks_in <= k or locked) and k <= 0 and sgm >= 1 and not (smesh <= mesh):
-            nv += report(ctx, ("grid:mesh:search-mesh-exceeds-poll-mesh", f"search mesh {smesh!r} > poll mesh {mesh!r} (k={k}, ks_in={ks_in}, locked={locked}, sgm={sgm}, sgn={sgn})"), rp)
+        rp = dict(kind="loop_region", lb=lb.tolist(), ub=ub.tolist(), mesh_size_integer=k, search_size_integer=ks_in, search_size_locked=locked,
+                  search_grid_multiplier=sgm, search_grid_number=sgn, tol_improvement=ti, forcing_exponent=fe, sloppy_improvement=sloppy, tol_fun=tf,
+                  tol_mesh_state=tstate)
+        for v, i in verdicts:
+            nv += report(ctx, v, dict(rp, coordinate=i))
         if acc is None:
             continue
         f = "optimize/loop"
@@ -715,6 +754,7 @@ def comp_poll_region(ctx, acc, n):
     rng = ctx.rng
     m_ = acc.m
     stmts = def_stmts(m_.poll)
+    nv = 0
     for _ in range(n):
         k = rng.randint(-30, 2)
         sgm = rng.choice([2, 2, 1, 3])
@@ -728,7 +768,13 @@ def comp_poll_region(ctx, acc, n):
         acc.exact("_poll_step_", "src_poll_mesh_size", dict(poll_mesh_multiplier=2.0, mesh_size_integer=k), stub.optim_state["mesh_size"])
         if stub.mesh_size != stub.optim_state["mesh_size"]:
             acc.differ("_poll_step_", "self.mesh_size != optim_state['mesh_size']")
-    return 0
+        ks_out = int(stub.optim_state["search_size_integer"])
+        rp = dict(kind="poll_region", **Z)
+        nv += report(ctx, mon_mesh(2.0, k, stub.optim_state["mesh_size"]), rp)
+        if ks_out > ks_in or (k <= 0 and ks_out > k):
+            nv += report(ctx, ("grid:mesh:search-exponent-after-failed-poll", f"after a failed poll the search exponent {ks_in} became {ks_out} with poll exponent {k} "
+                               f"(search_grid_multiplier {sgm}, search_grid_number {sgn}): it must not grow and not exceed the poll exponent"), rp)
+    return nv
 
 
 def comp_improvement(ctx, acc, n):
@@ -864,7 +910,7 @@ def real_objects(ctx, acc, n):
         u0 = np.asarray(os_["u"], float).reshape(-1)
         lbs, ubs = np.asarray(os_["lb_search"], float).reshape(-1), np.asarray(os_["ub_search"], float).reshape(-1)
         nv += report(ctx, mon_mesh(pmm, k, os_["mesh_size"]), dict(kind="object", problem=pr))
-        nv += report(ctx, mon_mesh(pmm, ks, m), dict(kind="object", problem=pr))
+        nv += report(ctx, mon_mesh(pmm, ks, m, SEARCH_MESH), dict(kind="object", problem=pr))
         nv += report(ctx, mon_snap(pmm, float(o["tol_mesh"]), float(os_["tol_mesh"]), ctx.coverage), dict(kind="object", problem=pr))
         if not (m <= float(os_["mesh_size"])):
             nv += report(ctx, ("grid:mesh:search-mesh-exceeds-poll-mesh", f"search mesh {m!r} > poll mesh {os_['mesh_size']!r} after construction"), dict(kind="object", problem=pr))
@@ -938,7 +984,7 @@ def run_level(ctx, acc, traces, what=("box", "mesh", "si", "impr")):
             elif kind == "hist" and "mesh" in what and e[2] == "search_mesh_size" and e[3] is not None:
                 if acc is not None:
                     acc.exact("recorded runs/mesh", "src_loop_search_mesh_size", dict(poll_mesh_multiplier=pmm, search_size_integer=int(ks_now)), e[3], coq=False)
-                nv += report(ctx, mon_mesh(pmm, ks_now, e[3]), rp)
+                nv += report(ctx, mon_mesh(pmm, ks_now, e[3], SEARCH_MESH), rp)
             elif kind == "filter" and "box" in what:
                 _, site, phase, U, flb, fub, tolm, proj = e[:8]
                 nev += 1
@@ -1071,6 +1117,33 @@ def replay_grid(ctx, rp):
             v = v or mon_search_box(l, u, m, float(np.asarray(os_["lb_search"]).reshape(-1)[i]), float(np.asarray(os_["ub_search"]).reshape(-1)[i]))
             v = v or mon_start(float(np.asarray(b.var_transf(b.x0)).reshape(-1)[i]), l, u, m, float(np.asarray(os_["u"]).reshape(-1)[i]), False)
         v = v or mon_snap(float(b.options["poll_mesh_multiplier"]), float(b.options["tol_mesh"]), float(os_["tol_mesh"]))
+    elif kind == "poll_region":
+        mdl = T.load()
+        stub = Stub(options=Options(poll_mesh_multiplier=2.0, search_grid_multiplier=r["search_grid_multiplier"], search_grid_number=r["search_grid_number"]),
+                    mesh_size_integer=r["mesh_size_integer"], optim_state=dict(search_size_integer=r["search_size_integer_in"]))
+        run_stmts(def_stmts(mdl.poll), dict(np=np, self=stub))
+        ks_out, k = int(stub.optim_state["search_size_integer"]), r["mesh_size_integer"]
+        v = mon_mesh(2.0, k, stub.optim_state["mesh_size"])
+        if ks_out > r["search_size_integer_in"] or (k <= 0 and ks_out > k):
+            v = ("grid:mesh:search-exponent-after-failed-poll", f"search exponent {r['search_size_integer_in']} -> {ks_out} with poll exponent {k}")
+    elif kind in ("init_region", "loop_region"):
+        try:
+            mdl = T.load()
+            st = (def_stmts(mdl.init), mdl.init_rej_stmt, def_stmts(mdl.loop), mdl.loop_stop_stmt)
+        except Exception:                      # noqa: BLE001
+            st = loose_regions()
+        lb, ub = np.array(r["lb"], dtype=float), np.array(r["ub"], dtype=float)
+        if kind == "init_region":
+            xu = np.array(r["x_units"], dtype=float)
+            a = (lb, ub, xu, r["init_mesh_size_integer"], r["search_grid_multiplier"], r["search_grid_number"], 2.0, r["tol_mesh"])
+            stub, os_, raised = exec_init(st[0], st[1], *a)
+            vs = mon_init(*a, stub, os_, raised)
+        else:
+            a = (lb, ub, r["mesh_size_integer"], r["search_size_integer"], r["search_size_locked"], r["search_grid_multiplier"], r["search_grid_number"],
+                 r["sloppy_improvement"], r["tol_improvement"], r["forcing_exponent"], r["tol_fun"], 2.0, r["tol_mesh_state"])
+            stub, stop = exec_loop(st[2], st[3], *a)
+            vs = mon_loop(*a, stub, stop)
+        v = vs[0][0] if vs else None
     else:
         print(f"replay of kind {kind!r}: re-run ./check {ctx.pid} (the input is regenerated from the seed)")
         return 2
